@@ -3,8 +3,159 @@ import BppModel.ParamListSpec
 /-! Helper lemmas for C02 (ParameterList).  Property theorems are in `Props/C02.lean`. -/
 namespace Bpp.ParamList
 
+/-! ## Heap -/
+
+@[simp, grind =] theorem get_put (h : Store) (i : ObjId) (p : Par) (j : ObjId) :
+    (h.put i p).get j = if j = i then p else h.get j := rfl
+@[simp, grind =] theorem next_put (h : Store) (i : ObjId) (p : Par) : (h.put i p).next = h.next := rfl
+@[simp, grind =] theorem get_alloc (h : Store) (p : Par) (j : ObjId) :
+    (h.alloc p).1.get j = if j = h.next then p else h.get j := rfl
+@[simp, grind =] theorem next_alloc (h : Store) (p : Par) : (h.alloc p).1.next = h.next + 1 := rfl
+@[simp, grind =] theorem alloc_snd (h : Store) (p : Par) : (h.alloc p).2 = h.next := rfl
+@[grind =] theorem nameOf_def (h : Store) (i : ObjId) : nameOf h i = (h.get i).name := rfl
+
+/-- all ids of the list have been allocated -/
+def Valid (h : Store) (l : List ObjId) : Prop := ∀ i ∈ l, i < h.next
+/-- every allocated object satisfies its own constraint -/
+def HeapOk (h : Store) : Prop := ∀ i, i < h.next → (h.get i).ok = true
+
+/-- `h'` is a later heap: more objects, old objects keep their names, `HeapOk` is kept -/
+structure Pres (h h' : Store) : Prop where
+  next_le : h.next ≤ h'.next
+  name_eq : ∀ i, i < h.next → nameOf h' i = nameOf h i
+  ok : HeapOk h → HeapOk h'
+
+theorem Pres.refl (h : Store) : Pres h h := ⟨Nat.le_refl _, fun _ _ => rfl, id⟩
+theorem Pres.trans {a b c : Store} (x : Pres a b) (y : Pres b c) : Pres a c :=
+  ⟨Nat.le_trans x.next_le y.next_le,
+   fun i hi => by rw [y.name_eq i (Nat.lt_of_lt_of_le hi x.next_le), x.name_eq i hi],
+   fun h => y.ok (x.ok h)⟩
+
+theorem Valid.mono {h h' : Store} {l : List ObjId} (v : Valid h l) (x : Pres h h') : Valid h' l :=
+  fun i hi => Nat.lt_of_lt_of_le (v i hi) x.next_le
+
+theorem Valid.nil (h : Store) : Valid h [] := by intro i hi; cases hi
+
+theorem names_congr {h h' : Store} {l : List ObjId} (e : ∀ i ∈ l, nameOf h' i = nameOf h i) :
+    names h' l = names h l := by
+  unfold names; exact List.map_congr_left e
+
+theorem Pres.names {h h' : Store} (x : Pres h h') {l : List ObjId} (v : Valid h l) :
+    names h' l = names h l := names_congr (fun i hi => x.name_eq i (v i hi))
+
+theorem pres_alloc (h : Store) (p : Par) (hp : HeapOk h → p.ok = true) : Pres h (h.alloc p).1 := by
+  refine ⟨by simp, ?_, ?_⟩
+  · intro i hi; grind
+  · intro hk i hi
+    have := hk i
+    have := hp hk
+    grind
+
+theorem pres_clone (h : Store) {i : ObjId} (hi : i < h.next) : Pres h (h.alloc (h.get i)).1 :=
+  pres_alloc h _ (fun hk => hk i hi)
+
+theorem setValue_ok {p p' : Par} {v : Rat} (e : p.setValue v = .ok p') :
+    p'.name = p.name ∧ p'.con = p.con ∧ (p.ok = true → p'.ok = true) ∧ p'.value = v := by
+  unfold Par.setValue at e
+  split at e
+  · cases e; simp_all
+  · split at e
+    · cases e
+    · cases e; simp_all [Par.ok, Par.rejects]
+
+theorem setValue_error {p : Par} {v : Rat} {e : Err} (h : p.setValue v = .error e) :
+    e = .constraint ∧ p.rejects v = true ∧ v ≠ p.value := by
+  unfold Par.setValue at h
+  split at h
+  · cases h
+  · split at h
+    · cases h; simp_all
+    · cases h
+
+theorem setValue_of_accepts {p : Par} {v : Rat} (h : p.rejects v = false) :
+    p.setValue v = .ok { p with value := v } := by
+  unfold Par.setValue
+  split
+  · next e => subst e; rfl
+  · simp [h]
+
+theorem pres_put_setValue (h : Store) (i : ObjId) {p' : Par} {v : Rat}
+    (e : (h.get i).setValue v = .ok p') : Pres h (h.put i p') := by
+  obtain ⟨e1, _, e3, _⟩ := setValue_ok e
+  refine ⟨by simp, ?_, ?_⟩
+  · intro j hj; grind
+  · intro hk j hj
+    have := hk j
+    grind
+
+/-- whole-parameter assignment `*t = *s` when both carry the same name -/
+theorem pres_put_assign (h : Store) {t s : ObjId} (hs : s < h.next) (e : nameOf h s = nameOf h t) :
+    Pres h (h.put t (h.get s)) := by
+  refine ⟨by simp, ?_, ?_⟩
+  · intro j hj; grind
+  · intro hk j hj
+    have := hk j
+    have := hk s
+    grind
+
+/-! ## Lookups -/
+
 theorem hasParameter_iff (h : Store) (l : List ObjId) (n : String) :
     hasParameter h l n = true ↔ n ∈ names h l := by
   simp only [hasParameter, names, List.any_eq_true, List.mem_map, beq_iff_eq]
+
+theorem hasParameter_false_iff (h : Store) (l : List ObjId) (n : String) :
+    hasParameter h l n = false ↔ n ∉ names h l := by
+  rw [← hasParameter_iff]; simp
+
+theorem find?_some {h : Store} {l : List ObjId} {n : String} {i : ObjId} (e : find? h l n = some i) :
+    i ∈ l ∧ nameOf h i = n := by
+  unfold find? at e
+  exact ⟨List.mem_of_find?_eq_some e, by simpa using List.find?_some e⟩
+
+theorem find?_none {h : Store} {l : List ObjId} {n : String} :
+    find? h l n = none ↔ n ∉ names h l := by
+  simp [find?, names, List.find?_eq_none]
+
+theorem find?_isSome (h : Store) (l : List ObjId) (n : String) :
+    (find? h l n).isSome = hasParameter h l n := by
+  unfold find? hasParameter
+  induction l with
+  | nil => rfl
+  | cons a t ih => rw [List.find?_cons, List.any_cons]; cases nameOf h a == n <;> simp [ih]
+
+theorem find?_congr {h h' : Store} {l : List ObjId} (e : ∀ i ∈ l, nameOf h' i = nameOf h i) (n : String) :
+    find? h' l n = find? h l n := by
+  unfold find?
+  induction l with
+  | nil => rfl
+  | cons a t ih =>
+    rw [List.find?_cons, List.find?_cons, e a (List.mem_cons_self ..),
+      ih (fun i hi => e i (List.mem_cons_of_mem _ hi))]
+
+theorem hasParameter_congr {h h' : Store} {l : List ObjId} (e : ∀ i ∈ l, nameOf h' i = nameOf h i)
+    (n : String) : hasParameter h' l n = hasParameter h l n := by
+  rw [← find?_isSome, ← find?_isSome, find?_congr e]
+
+theorem find?_valid {h : Store} {l : List ObjId} {n : String} {i : ObjId} (v : Valid h l)
+    (e : find? h l n = some i) : i < h.next := v i (find?_some e).1
+
+/-- with unique names, an element is found by its own name -/
+theorem find?_self {h : Store} {l : List ObjId} (nd : (names h l).Nodup) {i : ObjId} (hi : i ∈ l) :
+    find? h l (nameOf h i) = some i := by
+  induction l with
+  | nil => cases hi
+  | cons a t ih =>
+    simp only [names, List.map_cons, List.nodup_cons, List.mem_map, not_exists, not_and] at nd
+    unfold find?
+    rw [List.find?_cons]
+    by_cases e : a = i
+    · subst e; rw [beq_self_eq_true]
+    · have hit : i ∈ t := by cases hi with
+        | head => exact absurd rfl e
+        | tail _ h => exact h
+      have : nameOf h a ≠ nameOf h i := fun c => nd.1 i hit c.symm
+      rw [beq_eq_false_iff_ne.2 this]
+      exact ih nd.2 hit
 
 end Bpp.ParamList
